@@ -7,8 +7,10 @@
    which reference types aggregate.  No proofs here.
 
    As committed in the repository after
-     "fix: deleting a node recursed for ever on cycles of aggregating references" and
-     "fix: reference type matching looped for ever on a cycle of HasSubtype references";
+     "fix: deleting a node recursed for ever on cycles of aggregating references",
+     "fix: reference type matching looped for ever on a cycle of HasSubtype references" and
+     "fix: DeleteNodes of an unknown node deleted other nodes and reported BadNodeIdUnknown"
+     (children are looked up only for a node that exists);
    the code before each fix is in [Legacy]. *)
 From Coq Require Import List ZArith Bool.
 Import ListNotations.
@@ -93,7 +95,8 @@ Fixpoint delete_fuel (fuel : nat) (dtr : bool) (st : astate) (n : Z) : option (b
   match fuel with
   | O => None
   | S k =>
-      let child_nodes := find_aggregates_of st n in
+      (* a node that does not exist has no children, even if references from its id remain *)
+      let child_nodes := if memZ n (nodes st) then find_aggregates_of st n else None in
       let removed_node := memZ n (nodes st) in
       let nodes1 := filter (fun x => negb (x =? n)) (nodes st) in
       let '(removed_target_references, rs1) :=
@@ -185,9 +188,10 @@ Definition subtype_edges (X : list triple) : list edge :=
 Definition aggregating (X : list triple) (ty : Z) : bool := memZ ty (reach (subtype_edges X) AGGREGATES).
 
 (* the nodes to remove: the target and every NODE reachable from it by aggregating references
-   between nodes *)
+   between nodes (an id that is not a node has no children) *)
 Definition child_edges (X : list triple) (ns : list Z) : list edge :=
-  map (fun x => (src x, tgt x)) (filter (fun x => aggregating X (typ x) && memZ (tgt x) ns) X).
+  map (fun x => (src x, tgt x))
+      (filter (fun x => aggregating X (typ x) && memZ (src x) ns && memZ (tgt x) ns) X).
 Definition doomed (X : list triple) (ns : list Z) (target : Z) : list Z :=
   reach (child_edges X ns) target.
 
